@@ -25,6 +25,8 @@ class ElementProgram:
     ) -> None:
         if tokenizer is None:
             tokenizer = self.tokenizers[mode]
+        # the text that token positions refer to
+        self.source = source
         tokens = tokenizer(source, filename)
         parser = ElementParser(
             tokens, self.DEFAULT_NAMESPACES, self.restricted_namespace
